@@ -45,8 +45,9 @@ class TheCheck(TreeCheck):
         # end) and w complete walks (twice each) bring the counter to every value around the
         # wrap-around; then a new key, a search and its continuation must visit every key once
         ops = []
-        for w in range(124, 131):
-            ops += ["new 0", "put 6b31 76", "put 6b33 76", "near 6b31"] + ["next"] * 4
+        for extra in (0, 1):                # one more getnext after the end advances the counter again
+          for w in range(124, 131):
+            ops += ["new 0", "put 6b31 76", "put 6b33 76", "near 6b31"] + ["next"] * (3 + extra)
             ops += ["walk"] * w
             ops += ["put 6b32 77", "put 6b30 77", "near 6b30"] + ["next"] * 6 + ["near 6b33"] + ["next"] * 6
         sts.append(Stream("epoch-probes", ops, history=True))
